@@ -498,6 +498,8 @@ def _parse_global(m, ln):
     ms = re.match(r'^c"(.*)"$', init)
     if ms and g['const']:
         m.strings[name] = _unescape_cstring(ms.group(1))
+    elif g['const'] and init == 'zeroinitializer' and re.match(r'^\[\d+ x i8\]$', ty):
+        m.strings[name] = ''
     m.globals[name] = g
 
 
